@@ -1,5 +1,6 @@
-CONSTANTS MaxFaces = 2 MaxVal = 6 Emit = TRUE
-  Points = {0, 1, 2, 3, 4, 5, 6, 255, 256, 257, 65535, 65536, 65537, 2097151, 2097152}
+CONSTANTS MaxFaces = 2 MaxVal = 5 Emit = TRUE
+  Points = {0, 1, 2, 3, 4, 5, 6}
+  WidthPoints = {255, 256, 257, 65535, 65536, 65537, 2097151, 2097152}
 INIT Init
 NEXT Next
 INVARIANT Guards EmitRows
